@@ -282,6 +282,37 @@ Proof.
   rewrite !str_eqb_neq; [reflexivity| | | | |]; intros H; inversion H; lia.
 Qed.
 
+(* ------------------------------------------------------------ PlayReady version (tenths) *)
+Lemma fmt_tenths_parse t : 0 <= t -> parse_tenths (fmt_tenths t) = Some t.
+Proof.
+  intros Ht. unfold parse_tenths, fmt_tenths.
+  assert (Hq : 0 <= t / 10) by (apply Z.div_pos; lia).
+  pose proof (dec_digits (t / 10) Hq) as Hd. pose proof (dec_nonempty (t / 10)) as Hn.
+  change (dec (t / 10) ++ [46; 48 + t mod 10]) with (dec (t / 10) ++ 46 :: [48 + t mod 10]).
+  rewrite split_on_nochar by (apply digits_nochar; [exact Hd|reflexivity]).
+  assert (Hm : 0 <= t mod 10 < 10) by (apply Z.mod_pos_bound; lia).
+  cbn [split_on_acc]. replace (48 + t mod 10 =? 46) with false by lia. cbn [split_on_acc rev app].
+  rewrite app_nil_r, rev_involutive. rewrite Hd. rewrite str_eqb_neq by exact Hn. cbn [negb andb].
+  replace (is_digit (48 + t mod 10)) with true by (unfold is_digit; lia).
+  rewrite dval_dec by exact Hq. f_equal. lia.
+Qed.
+Lemma fmt_tenths_plain t : 0 <= t -> plain (fmt_tenths t) = true.
+Proof.
+  intros Ht. unfold fmt_tenths, plain. rewrite forallb_app.
+  assert (Hq : 0 <= t / 10) by (apply Z.div_pos; lia).
+  pose proof (digits_plain _ (dec_digits (t / 10) Hq)) as Hp. unfold plain in Hp. rewrite Hp.
+  assert (Hm : 0 <= t mod 10 < 10) by (apply Z.mod_pos_bound; lia).
+  cbn [forallb andb]. unfold url_plain. lia.
+Qed.
+Lemma fmt_tenths_not_none t : 0 <= t -> str_eqb (fmt_tenths t) [] = false /\ str_eqb (fmt_tenths t) s_none = false.
+Proof.
+  intros Ht. assert (Hq : 0 <= t / 10) by (apply Z.div_pos; lia).
+  pose proof (dec_digits (t / 10) Hq) as Hd. pose proof (dec_nonempty (t / 10)) as Hn.
+  unfold fmt_tenths. destruct (dec (t / 10)) as [|c r] eqn:E; [congruence|].
+  cbn [all_digits forallb] in Hd. apply andb_true_iff in Hd. destruct Hd as (Hc & _). unfold is_digit in Hc.
+  split; apply str_eqb_neq; [discriminate|]. unfold s_none. cbn [app]. intros H. inversion H. lia.
+Qed.
+
 (* ------------------------------------------------------------ the round trip *)
 Theorem roundtrip k v : legal k v = true -> through_url k v = Some v.
 Proof.
@@ -310,6 +341,10 @@ Proof.
     + discriminate.
     + apply Forall_forall. intros y Hy. rewrite Forall_forall in Hf. specialize (Hf y Hy).
       unfold token_ok in Hf. apply andb_true_iff in Hf. destruct Hf as (_ & Hf). apply negb_true_iff in Hf. exact Hf.
+  - (* PlayReady version, in tenths *) destruct o as [t|]; [|reflexivity].
+    assert (Ht : 0 <= t) by lia.
+    rewrite qdecode_plain by (apply fmt_tenths_plain; exact Ht). cbn [parse].
+    destruct (fmt_tenths_not_none t Ht) as (H1 & H2). rewrite H1, H2. cbn [orb]. rewrite fmt_tenths_parse by exact Ht. reflexivity.
   - (* licence URL: any text, reserved characters included *) destruct o as [s|]; [|reflexivity].
     apply andb_true_iff in H. destruct H as (Hb & Hn). rewrite qdecode_quote_plus by exact Hb. cbn [parse].
     apply negb_true_iff in Hn. rewrite Hn. reflexivity.
